@@ -604,6 +604,23 @@ def _run_info(case, out):
         if s.next_float() != ref.next_float():
             out.fail("independence:default-streams-of-separate-info-objects", "continuation")
             return
+    # one stream object registered under two ids: either both ids name that very object, or - if the container keeps
+    # objects of its own - streams that do not influence each other
+    try:
+        shared = MersenneTwister(5)
+        infos[0].add_stream("alias-a", shared)
+        infos[0].add_stream("alias-b", shared)
+        sa, sb = infos[0].get_stream("alias-a"), infos[0].get_stream("alias-b")
+        if sa is not sb:
+            ref = MersenneTwister(5)
+            for _ in range(3):
+                sa.next_float()
+            if [sb.next_float() for _ in range(2)] != [ref.next_float() for _ in range(2)]:
+                out.fail("independence:two-ids-share-generator-state", "draws from one id advanced the other")
+                return
+    except Exception as e:
+        out.fail("raises:info:" + type(e).__name__, repr(e))
+        return
     out.nontrivial = len(infos) >= 2 and sum(case["draws"]) >= 2
     out.label("info-objects=%d" % len(infos))
 
